@@ -81,15 +81,18 @@ only checks, by `rfl`, that the table entries at these positions *are* the gener
 
 open Lean Elab Command in
 #eval show CommandElabM Unit from do
+  -- every problem is reported (not only the first one); a certificate that cannot be computed stays undefined,
+  -- so the theorem that needs it fails as well
+  let problems ← IO.mkRef (#[] : Array String)
   let defIdx (name : String) (sub sup : List String) (what : String) : CommandElabM Unit := do
     match Aergo.Nondet.positions sub sup with
-    | .error missing => throwError "{what}: {missing}"
+    | .error missing => problems.modify (·.push s!"{what}: {missing}")
     | .ok idx => elabCommand (← `(def $(mkIdent (Name.mkSimple name)) : List Nat := $(quote idx)))
   defIdx "siteIdx" Aergo.Gen.NondetSites.sites Aergo.Nondet.keys
     "unclassified nondeterminism site(s) in the consensus-critical packages (add them to Aergo.Nondet.table)"
   let d := Aergo.Nondet.loopDiffs Aergo.Gen.NondetSites.loops
   unless d.isEmpty do
-    throwError "map iteration(s) whose body no longer is what was classified: {d}"
+    problems.modify (·.push s!"map iteration(s) whose body no longer is what was classified: {d}")
   defIdx "loopIdx" (Aergo.Gen.NondetSites.loops.map (·.1)) (Aergo.Nondet.loopTable.map (·.key))
     "map iteration(s) without a row in Aergo.Nondet.loopTable"
   defIdx "loopCoverIdx" (Aergo.Gen.NondetSites.loops.map (·.1)) Aergo.Nondet.keys
@@ -98,6 +101,9 @@ open Lean Elab Command in
     "theorem(s) cited by Aergo.Nondet.table that are not in theoremIndex"
   defIdx "closureIdx" Aergo.Gen.NondetSites.closure Aergo.Gen.NondetSites.scannedDirs
     "package(s) imported by the block-execution roots but not in the scan list of tools/props.d/C02.json"
+  let ps ← problems.get
+  unless ps.isEmpty do
+    throwError "{"\n".intercalate ps.toList}"
 
 private theorem pick_mem {α : Type} (xs : List α) : ∀ (idx : List Nat) (l : List α),
     Aergo.Nondet.pick xs idx = some l → ∀ a ∈ l, a ∈ xs
@@ -591,71 +597,250 @@ mempool receives them is not chain state (C13: the pool sorts per account by non
 theorem swapReoffer_perm {τ : Type} (order order' : List τ) (p : order.Perm order') (msg : τ → τ) :
     (order.map msg).Perm (order'.map msg) := p.map msg
 
-/-! ### Producer and validator -/
+/-! ### Producer and validator, on different nodes -/
 
 section exec
-variable {σ τ ρ : Type}
+variable {σ τ ρ ν κ : Type}
 
-/-- **Every block the producer builds is accepted by the validator with the same state and receipts.**
-`exec` is any transaction executor; the only hypothesis is the one `NewTxExecutor` establishes with its
-snapshot/rollback pair (C12 `rollback_restores`, C03): a failing execution leaves the block state as it
-was. `cands` carries, per candidate, what the block factory's own checks said (`Pre`): whichever branch of
-the `select` on the block-generation context was taken, whatever the contract-timeout check answered. Then
-re-executing exactly the collected transactions from the same prior state succeeds on every one of them and
-ends in the producer's block state with the producer's receipts (both paths then run the same
-`SendBlockReward`, `Update`; `ValidatePost` compares the roots of equal states). -/
-theorem producer_validator_agree (exec : σ → τ → Bool × σ × ρ)
-    (hrb : ∀ s t, (exec s t).1 = false → (exec s t).2.1 = s)
-    (s : σ) (cands : List (Pre × τ)) :
-    validate exec s (gather exec s cands).1 = some ((gather exec s cands).2.1, (gather exec s cands).2.2) := by
+/-- **Every block the producer builds is accepted by the validator of any other node with the same state and
+receipts.** `exec` is any transaction executor; besides state and transaction it reads an `Env`: the execution
+mode, whether the execution context had already ended, and the node (configuration, mempool, clock). Hypotheses:
+
+* `hrb` — what `NewTxExecutor` establishes with its snapshot/rollback pair (C12 `rollback_restores`, C03): an
+  execution that does not succeed — an error *or a timeout raised inside the VM after the call has written* —
+  leaves the block state as it was;
+* `henv` — a *successful* execution is reproduced by a validator of any node: mode, context and node-local inputs
+  may decide *whether* the producer's run succeeds (a deadline can only make it stop), never *what* a
+  successful run yields. (This is the assumption about `executeTx` that harness c02 tests with two nodes whose
+  node-local inputs differ; the `example`s below show that the statement is false without either hypothesis.)
+
+`cands` carries, per candidate, what the block factory's own checks said (`Pre`: whichever branch of the
+`select` on the block-generation context was taken, whatever the contract-timeout check answered) and whether the
+context had ended when the candidate's execution started (`ctx.Err()` polled inside the execution). Then
+re-executing exactly the collected transactions from the same prior state on node `n'` succeeds on every one of
+them and ends in the producer's block state with the producer's receipts. -/
+theorem producer_validator_agree (exec : Env ν → σ → τ → Out × σ × ρ)
+    (hrb : ∀ e s t, (exec e s t).1 ≠ .ok → (exec e s t).2.1 = s)
+    (henv : ∀ e n' s t, (exec e s t).1 = .ok → exec (Env.validator n') s t = exec e s t)
+    (n n' : ν) (s : σ) (cands : List (Pre × Bool × τ)) :
+    validate exec n' s (gather exec n s cands).1 =
+      some ((gather exec n s cands).2.1, (gather exec n s cands).2.2) := by
   induction cands generalizing s with
   | nil => rfl
   | cons c rest ih =>
-    obtain ⟨pre, t⟩ := c
+    obtain ⟨pre, d, t⟩ := c
     cases pre with
     | go =>
       simp only [gather]
-      cases hok : (exec s t).1 with
-      | true =>
-        simp only [if_true, validate, hok]
+      cases hok : (exec ⟨true, d, n⟩ s t).1 with
+      | ok =>
+        simp only [validate, henv _ n' s t hok, hok]
         rw [ih]; rfl
-      | false =>
-        simp only [Bool.false_eq_true, if_false]
-        rw [hrb s t hok]
+      | fail =>
+        simp only
+        rw [hrb _ s t (by rw [hok]; decide)]
         exact ih s
+      | timeout =>
+        simp only
+        rw [hrb _ s t (by rw [hok]; decide)]
+        rfl
     | tmo => rfl
     | vmtmo => rfl
 
-/-- Without "a failing execution leaves the state unchanged" the statement is false: a *test* executor that
-keeps a side effect of a failed tx makes the validator end in a different state. -/
-example :
-    let exec : Nat → Nat → Bool × Nat × Nat := fun s t => if t = 0 then (false, s + 100, 0) else (true, s + t, t)
-    validate exec 0 (gather exec 0 [(.go, 0), (.go, 5)]).1 ≠
-      some ((gather exec 0 [(.go, 0), (.go, 5)]).2.1, (gather exec 0 [(.go, 0), (.go, 5)]).2.2) := by decide
+/-- **Validation does not depend on the validating node**: two nodes re-executing one transaction list from one
+prior state reach the same verdict, state and receipts (`henv` for validator environments). -/
+theorem validate_node_independent (exec : Env ν → σ → τ → Out × σ × ρ)
+    (henv : ∀ e n' s t, (exec e s t).1 = .ok → exec (Env.validator n') s t = exec e s t)
+    (n₁ n₂ : ν) (s : σ) (txs : List τ) : validate exec n₁ s txs = validate exec n₂ s txs := by
+  induction txs generalizing s with
+  | nil => rfl
+  | cons t ts ih =>
+    simp only [validate]
+    cases h1 : (exec (Env.validator n₁) s t).1 with
+    | ok =>
+      have e := henv _ n₂ s t h1
+      simp only [e, h1, ih]
+    | fail =>
+      cases h2 : (exec (Env.validator n₂) s t).1 with
+      | ok => have e := henv _ n₁ s t h2; rw [e, h2] at h1; cases h1
+      | fail => rfl
+      | timeout => rfl
+    | timeout =>
+      cases h2 : (exec (Env.validator n₂) s t).1 with
+      | ok => have e := henv _ n₁ s t h2; rw [e, h2] at h1; cases h1
+      | fail => rfl
+      | timeout => rfl
 
-/-- Non-vacuity / *test*: a failing candidate is skipped, a timeout ends the collection. -/
+/-- **Block level, with the reward**: the producer pays the block reward to *its own* configured coinbase
+account and writes that account into the header; a validator — whatever its own configuration — pays the
+account of the header. So the whole block (tx loop + reward) is accepted by any node with the producer's state
+and receipts. -/
+theorem block_producer_validator_agree (exec : Env ν → σ → τ → Out × σ × ρ) (reward : κ → σ → σ) (cb : ν → κ)
+    (hrb : ∀ e s t, (exec e s t).1 ≠ .ok → (exec e s t).2.1 = s)
+    (henv : ∀ e n' s t, (exec e s t).1 = .ok → exec (Env.validator n') s t = exec e s t)
+    (n n' : ν) (s : σ) (cands : List (Pre × Bool × τ)) :
+    validateBlock exec reward n' s (produceBlock exec reward cb n s cands).1 =
+      some ((produceBlock exec reward cb n s cands).2.1, (produceBlock exec reward cb n s cands).2.2) := by
+  simp only [validateBlock, produceBlock, producer_validator_agree exec hrb henv n n' s cands, Option.map_some]
+
+/-- Without "an unsuccessful execution leaves the state unchanged" the statement is false — in particular for a
+*timeout inside the VM after partial writes*: a *test* executor that keeps what a timed-out call wrote (here +100)
+makes the producer's block state differ from what any validator computes for the block. -/
 example :
-    let exec : Nat → Nat → Bool × Nat × Nat := fun s t => if t % 2 = 0 then (false, s, 0) else (true, s + t, 10 * t)
-    gather exec 0 [(.go, 1), (.go, 2), (.go, 3), (.tmo, 5), (.go, 7)] = ([1, 3], 4, [10, 30]) ∧
-      validate exec 0 [1, 3] = some (4, [10, 30]) := by decide
+    let exec : Env Unit → Nat → Nat → Out × Nat × Nat := fun _ s t =>
+      if t = 0 then (.timeout, s + 100, 0) else (.ok, s + t, t)
+    validate exec () 0 (gather exec () 0 [(.go, false, 5), (.go, false, 0)]).1 ≠
+      some ((gather exec () 0 [(.go, false, 5), (.go, false, 0)]).2.1,
+        (gather exec () 0 [(.go, false, 5), (.go, false, 0)]).2.2) := by decide
+
+/-- Without `henv` the statement is false: a *test* executor that credits the fee to the coinbase account
+configured on the *executing node* (instead of leaving the reward to the block level, which uses the header)
+succeeds everywhere but yields another state on a node configured differently. -/
+example :
+    let exec : Env Nat → Nat → Nat → Out × Nat × Nat := fun e s t => (.ok, s + t + e.node, t)
+    validate exec 7 0 (gather exec 3 0 [(.go, false, 5)]).1 ≠
+      some ((gather exec 3 0 [(.go, false, 5)]).2.1, (gather exec 3 0 [(.go, false, 5)]).2.2) := by decide
+
+/-- ... and the same one level up: a *test* validator that pays the reward to its own configured account
+(`chain.CoinbaseAccount`) instead of the header's ends in another state as soon as the two nodes are configured
+differently (state = balances of accounts 0 and 1; producer configured with account 0, validator with 1). -/
+example :
+    let exec : Env Nat → Nat × Nat → Nat → Out × (Nat × Nat) × Nat := fun _ s t => (.ok, s, t)
+    let reward : Nat → Nat × Nat → Nat × Nat := fun k s => if k = 0 then (s.1 + 10, s.2) else (s.1, s.2 + 10)
+    let wrongValidateBlock := fun (n' : Nat) (s : Nat × Nat) (b : Blk Nat Nat) =>
+      (validate exec n' s b.txs).map (fun v => (reward n' v.1, v.2))
+    wrongValidateBlock 1 (0, 0) (produceBlock exec reward id 0 (0, 0) [(.go, false, 5)]).1 ≠
+        some ((produceBlock exec reward id 0 (0, 0) [(.go, false, 5)]).2.1,
+          (produceBlock exec reward id 0 (0, 0) [(.go, false, 5)]).2.2) ∧
+      validateBlock exec reward 1 (0, 0) (produceBlock exec reward id 0 (0, 0) [(.go, false, 5)]).1 =
+        some ((produceBlock exec reward id 0 (0, 0) [(.go, false, 5)]).2.1,
+          (produceBlock exec reward id 0 (0, 0) [(.go, false, 5)]).2.2) := by decide
+
+/-- Non-vacuity / *test*: a failing candidate is skipped, a timeout inside the VM and a timeout found by the block
+factory's checks end the collection; an executor whose success does not read the environment but which times
+out in producer mode once the context has ended satisfies both hypotheses. -/
+example :
+    let exec : Env Unit → Nat → Nat → Out × Nat × Nat := fun e s t =>
+      if e.producer && e.ctxDone then (.timeout, s, 0) else if t % 2 = 0 then (.fail, s, 0) else (.ok, s + t, 10 * t)
+    gather exec () 0 [(.go, false, 1), (.go, false, 2), (.go, false, 3), (.go, true, 9), (.go, false, 7)] = ([1, 3], 4, [10, 30]) ∧
+      gather exec () 0 [(.go, false, 1), (.tmo, false, 5), (.go, false, 7)] = ([1], 1, [10]) ∧
+      validate exec () 0 [1, 3] = some (4, [10, 30]) ∧
+      (∀ e s t, (exec e s t).1 ≠ .ok → (exec e s t).2.1 = s) := by
+  refine ⟨by decide, by decide, by decide, ?_⟩
+  intro e s t
+  simp only
+  split
+  · intro _; rfl
+  · split
+    · intro _; rfl
+    · intro h; exact absurd rfl h
 
 /-- The producer only ever drops candidates: the block's list is a sublist of the candidates, in order. -/
-theorem gather_sublist (exec : σ → τ → Bool × σ × ρ) (s : σ) (cands : List (Pre × τ)) :
-    (gather exec s cands).1.Sublist (cands.map (·.2)) := by
+theorem gather_sublist (exec : Env ν → σ → τ → Out × σ × ρ) (n : ν) (s : σ) (cands : List (Pre × Bool × τ)) :
+    (gather exec n s cands).1.Sublist (cands.map (·.2.2)) := by
   induction cands generalizing s with
   | nil => exact List.Sublist.slnil
   | cons c rest ih =>
-    obtain ⟨pre, t⟩ := c
+    obtain ⟨pre, d, t⟩ := c
     cases pre with
     | go =>
       simp only [gather, List.map_cons]
-      cases (exec s t).1 with
-      | true => simp only [if_true]; exact (ih _).cons_cons t
-      | false => simp only [Bool.false_eq_true, if_false]; exact (ih _).cons t
+      cases (exec ⟨true, d, n⟩ s t).1 with
+      | ok => simp only; exact (ih _).cons_cons t
+      | fail => simp only; exact (ih _).cons t
+      | timeout => exact List.nil_sublist _
     | tmo => exact List.nil_sublist _
     | vmtmo => exact List.nil_sublist _
 
 end exec
+
+/-! ### Loops that return early, histories of loops -/
+
+/-- **A loop that returns the error of the first failing entry** (`stateBuffer.stage`, `StateDB.Commit`,
+`storageCache.Rollback`, the row-writing loop of `vpr.apply`, `SetGenesis`) refines the order-free specification
+"fails iff some entry fails, otherwise the fold over all entries". -/
+theorem tryFold_spec {α β : Type} (bad : α → Bool) (f : β → α → β) (b : β) (order : List α) :
+    tryFold bad f b order = if order.any bad then none else some (order.foldl f b) := by
+  induction order generalizing b with
+  | nil => rfl
+  | cons a as ih =>
+    simp only [tryFold, List.any_cons, List.foldl_cons]
+    by_cases h : bad a = true
+    · simp [h]
+    · have h' : bad a = false := by simpa using h
+      simp only [h', Bool.false_eq_true, if_false, Bool.false_or]
+      exact ih (f b a)
+
+/-- ... hence neither the verdict nor (on success) the result depends on the iteration order, whenever the
+loop without the early return does not (`hperm`: the corresponding `*_perm_invariant` theorem of this file). On
+failure the caller discards the batch (`bulk.DiscardLast`, the block is rejected), so the order-dependent prefix
+that was visited is never used. -/
+theorem tryFold_perm_invariant {α β : Type} (bad : α → Bool) (f : β → α → β) (b : β) (order order' : List α)
+    (p : order.Perm order') (hperm : order.foldl f b = order'.foldl f b) :
+    tryFold bad f b order = tryFold bad f b order' := by
+  rw [tryFold_spec, tryFold_spec, p.any_eq, hperm]
+
+/-- Non-vacuity / *test*: three entries, the second one fails: `none` in both orders; without it the sum. -/
+example : tryFold (fun a => a == 2) (fun (b a : Nat) => b + a) 0 [1, 2, 3] = none ∧
+    tryFold (fun a => a == 2) (fun (b a : Nat) => b + a) 0 [3, 2, 1] = none ∧
+    tryFold (fun a => a == 9) (fun (b a : Nat) => b + a) 0 [3, 2, 1] = some 6 := by decide
+
+/-- **From one loop to whole histories.** Block execution walks many maps, many times, each time in an order of
+the runtime's choosing. If every loop body is order-independent *on the states it is run on* (`inv`: the
+representation invariant the loops preserve — e.g. `Vpr.Inv`, distinct keys — and `good`: the side condition on
+the visited entries, closed under permutation), then two histories that run the same loops on permuted orders end
+in the same state. This lifts the per-site theorems (`vprApply_perm_invariant`, `dbSets_perm_invariant`, …,
+each an instance of `hstep`) from one iteration to all executions, by induction over the history. -/
+theorem runVisits_perm_invariant {σ κ : Type} (inv : σ → Prop) (good : σ → List κ → Prop)
+    (vs vs' : List (Visit σ κ))
+    (hrel : SameUpToOrder vs vs')
+    (hstep : ∀ v ∈ vs, ∀ s o', inv s → good s v.order → v.order.Perm o' → v.run s v.order = v.run s o')
+    (hinv : ∀ v ∈ vs, ∀ s, inv s → good s v.order → inv (v.run s v.order))
+    (hgood : ∀ v ∈ vs, ∀ s, inv s → good s v.order)
+    (s : σ) (hs : inv s) : runVisits s vs = runVisits s vs' := by
+  induction hrel generalizing s with
+  | nil => rfl
+  | @cons v v' rest rest' hr hp _ ih =>
+    have hg := hgood v List.mem_cons_self s hs
+    have h1 : v.run s v.order = v'.run s v'.order := by
+      rw [← hr]; exact hstep v List.mem_cons_self s v'.order hs hg hp
+    simp only [runVisits, List.foldl_cons]
+    rw [← h1]
+    exact ih (fun w hw => hstep w (List.mem_cons_of_mem _ hw))
+      (fun w hw => hinv w (List.mem_cons_of_mem _ hw))
+      (fun w hw => hgood w (List.mem_cons_of_mem _ hw))
+      _ (hinv v List.mem_cons_self s hs hg)
+
+/-- Non-vacuity / *test*: a history of two `vpr.apply` loops on permuted orders (instance of `hstep` =
+`vprApply_perm_invariant`, `inv` = `Vpr.Inv`, `good` = distinct keys). -/
+example :
+    let v1 : Visit Vpr (Nat × Int) := ⟨Vpr.apply, [(5, 10), (3, 7)]⟩
+    let v1' : Visit Vpr (Nat × Int) := ⟨Vpr.apply, [(3, 7), (5, 10)]⟩
+    let v2 : Visit Vpr (Nat × Int) := ⟨Vpr.apply, [(5, -10), (9, 2), (3, 1)]⟩
+    let v2' : Visit Vpr (Nat × Int) := ⟨Vpr.apply, [(9, 2), (3, 1), (5, -10)]⟩
+    runVisits Vpr.empty [v1, v2] = runVisits Vpr.empty [v1', v2'] := by decide
+
+/-- The instance for the voting-power rank, for all histories: any number of `vpr.apply` rounds, each visited in
+an arbitrary order of its (distinct-key) change set, ends in the same rank. -/
+theorem vprHistory_perm_invariant (rounds rounds' : List (List (Nat × Int)))
+    (hperm : PermEach rounds rounds')
+    (hkeys : ∀ o ∈ rounds, (o.map (·.1)).Nodup) :
+    runVisits Vpr.empty (rounds.map (fun o => ⟨Vpr.apply, o⟩)) =
+      runVisits Vpr.empty (rounds'.map (fun o => ⟨Vpr.apply, o⟩)) := by
+  refine runVisits_perm_invariant Vpr.Inv (fun _ o => (o.map (·.1)).Nodup) _ _ ?_ ?_ ?_ ?_ _ Vpr.inv_empty
+  · induction hperm with
+    | nil => exact SameUpToOrder.nil
+    | cons h _ ih =>
+      exact SameUpToOrder.cons rfl h (ih (fun o ho => hkeys o (List.mem_cons_of_mem _ ho)))
+  · intro v hv s o' hs hg hp
+    obtain ⟨o, _, rfl⟩ := List.mem_map.1 hv
+    exact vprApply_perm_invariant s hs o o' hp hg
+  · intro v hv s hs _
+    obtain ⟨o, _, rfl⟩ := List.mem_map.1 hv
+    exact vprApply_preserves_inv s hs o
+  · intro v hv s _
+    obtain ⟨o, ho, rfl⟩ := List.mem_map.1 hv
+    exact hkeys o ho
 
 /-! ### The table's citations -/
 
